@@ -2,9 +2,9 @@ SPECIFICATION Spec
 CONSTANTS
   Thorough = FALSE
   Mut = "none"
-  Dev_h12 = FALSE
-  Dev_h13 = FALSE
-  Dev_ownerAbsent = FALSE
+  Dev_h12 = TRUE
+  Dev_h13 = TRUE
+  Dev_ownerAbsent = TRUE
   Emit = FALSE
 INVARIANTS AuthUserSound AuthUserComplete AuthOwnerSound AuthOwnerComplete KeyAgreement NoKeyWithoutAuth Plaintext Shapes ImplDictRefines ImplKeyRefines ImplItemRefines ImplOpens ImplRejects EmitInv
 CHECK_DEADLOCK FALSE
